@@ -16,8 +16,10 @@ import (
 	"os/exec"
 	"path/filepath"
 	"reflect"
+	"runtime"
 	"strconv"
 	"strings"
+	"sync"
 
 	structform "github.com/elastic/go-structform"
 	"github.com/elastic/go-structform/gotype"
@@ -857,6 +859,79 @@ func RefMain(in io.Reader, out io.Writer, task int) int {
 	return 0
 }
 
+// FreeMain is the body of the free-running child process: it regenerates the
+// programs from the generation trace and runs ALL tasks at once on real
+// threads (no simulated scheduler: the operating system decides), released
+// together by a barrier, in this fresh process - so that the first use of
+// every Go type, which compiles its folder or unfolder, happens under true
+// parallelism, inside windows that contain no seam at all.
+func FreeMain(in io.Reader, out io.Writer) int {
+	var trace []uint64
+	if err := json.NewDecoder(in).Decode(&trace); err != nil {
+		fmt.Fprintln(os.Stderr, "conc-free: bad trace:", err)
+		return 2
+	}
+	progs, _, _ := generate(simkit.ReplayChoices(trace))
+	res := make([][]string, len(progs))
+	var ready, done sync.WaitGroup
+	start := make(chan struct{})
+	for t := range progs {
+		t := t
+		ready.Add(1)
+		done.Add(1)
+		go func() {
+			defer done.Done()
+			ready.Done()
+			<-start
+			for _, o := range progs[t] {
+				res[t] = append(res[t], hex.EncodeToString([]byte(render(o.run(runtime.Gosched)))))
+			}
+		}()
+	}
+	ready.Wait()
+	close(start)
+	done.Wait()
+	json.NewEncoder(out).Encode(res)
+	return 0
+}
+
+// freeRunning executes the run's tasks in parallel in a fresh process of the
+// race-instrumented build and returns their results (or a race report).
+func freeRunning(genTrace []uint64) ([][]string, string, error) {
+	dir := os.Getenv("VERIF_DIR")
+	if dir == "" {
+		dir = "/verif"
+	}
+	bin := filepath.Join(dir, ".build", "vcheck-race")
+	tr, _ := json.Marshal(genTrace)
+	cmd := exec.Command(bin, "conc-free")
+	cmd.Stdin = bytes.NewReader(tr)
+	var se bytes.Buffer
+	cmd.Stderr = &se
+	cmd.Env = append(os.Environ(), "GOMAXPROCS=8", "GORACE=halt_on_error=1 atexit_sleep_ms=0")
+	b, err := cmd.Output()
+	if err != nil {
+		if strings.Contains(se.String(), "WARNING: DATA RACE") || strings.Contains(se.String(), "fatal error:") {
+			return nil, se.String(), nil
+		}
+		return nil, "", fmt.Errorf("free-running process: %v: %s", err, trunc(se.String(), 300))
+	}
+	var out [][]string
+	if err := json.Unmarshal(b, &out); err != nil {
+		return nil, "", fmt.Errorf("free-running process: %v", err)
+	}
+	for t := range out {
+		for i, h := range out[t] {
+			raw, err := hex.DecodeString(h)
+			if err != nil {
+				return nil, "", err
+			}
+			out[t][i] = string(raw)
+		}
+	}
+	return out, "", nil
+}
+
 // freshReference runs every task alone, each in a process of its own (plain
 // build), so that the reference cannot be polluted by process-global state
 // left behind by other tasks.
@@ -954,6 +1029,57 @@ func (Engine) Run(c *simkit.Choices, x *simkit.Ctx) *simkit.Violation {
 					return &simkit.Violation{Kind: "task-result-differs", Site: progs[t][i].desc.Kind + "/fresh-process",
 						Detail: fmt.Sprintf("task %d op %d (%s): among other goroutines %s | alone in a fresh process %s", t, i, progs[t][i].desc.Kind,
 							trunc(conc[t][i], 300), trunc(ref[t][i], 300)), Scenario: sc}
+				}
+			}
+		}
+	}
+	// free-running phase (a sixteenth of the runs, 3 attempts): the same tasks
+	// on real threads in a fresh race-instrumented process, compared with the
+	// same tasks alone in fresh processes. The one place where the schedule is
+	// NOT the simulator's: windows without any seam (type compilation) can only
+	// be opened by real parallelism. A difference cannot be a false alarm (the
+	// property promises the alone-result whatever the interleaving), but its
+	// replay is a retry, not a re-execution (said in the replay file).
+	if simkit.NewDigest().Str(fmt.Sprint(genTrace)).Sum()%16 == 1 {
+		ref, err := freshReference(genTrace, ntasks)
+		if err != nil {
+			return &simkit.Violation{Kind: "harness", Site: "fresh-reference", Detail: err.Error(), Scenario: sc}
+		}
+		attempts := 3
+		if x.Thorough {
+			attempts = 6
+		}
+		for a := 0; a < attempts; a++ {
+			x.Alive()
+			free, report, err := freeRunning(genTrace)
+			if err != nil {
+				return &simkit.Violation{Kind: "harness", Site: "free-running", Detail: err.Error(), Scenario: sc}
+			}
+			st.Probe("free-running-attempt")
+			st.Fault("real-parallel-first-use")
+			if report != "" {
+				kind, site := "race", "free-running"
+				if !strings.Contains(report, "WARNING: DATA RACE") {
+					kind = "fatal"
+				}
+				for _, l := range strings.Split(report, "\n") {
+					if l = strings.TrimSpace(l); strings.HasPrefix(l, "github.com/elastic/go-structform") {
+						if i := strings.LastIndexByte(l, '('); i > 0 {
+							l = l[:i]
+						}
+						site = strings.TrimPrefix(l, "github.com/elastic/go-structform") + "/free-running"
+						break
+					}
+				}
+				return &simkit.Violation{Kind: kind, Site: site, Detail: "free-running phase (real threads, fresh race-instrumented process; replay retries): " + trunc(report, 3000), Scenario: sc}
+			}
+			for t := 0; t < ntasks && t < len(free); t++ {
+				for i := range progs[t] {
+					if i < len(ref[t]) && i < len(free[t]) && ref[t][i] != free[t][i] {
+						return &simkit.Violation{Kind: "task-result-differs", Site: progs[t][i].desc.Kind + "/free-running",
+							Detail: fmt.Sprintf("free-running phase (real threads, fresh process; replay retries), attempt %d: task %d op %d (%s): in parallel %s | alone in a fresh process %s", a+1, t, i, progs[t][i].desc.Kind,
+								trunc(free[t][i], 300), trunc(ref[t][i], 300)), Scenario: sc}
+					}
 				}
 			}
 		}
